@@ -12,7 +12,7 @@
 EXTENDS FsBase
 CONSTANTS Db, Sc, Conn
 
-AllDevs == {"C03.usedb_keeps_reported_schema", "C03.current_functions_engine_defaults"}
+AllDevs == {"C03.usedb_keeps_reported_schema", "C03.current_functions_engine_defaults", "C03.merge_needs_current_schema"}
 
 NONE == "none"
 MAIN == "main"
@@ -120,7 +120,11 @@ Steps(st, op, D) ==
              ELSE {RR([st EXCEPT !.ctx[op.c] = [open |-> TRUE, rdb |-> t[1], rsc |-> t[2], edb |-> t[1], esc |-> t[2],
                                                dset |-> TRUE, sset |-> TRUE, eng |-> t[2]]], "ok", D)}
    [] op.k \in {"createt", "dropt", "probe", "ins"} ->
-        IF op.q < 3 /\ ~x.dset THEN {RR(st, "nodb", D)}
+        \* as built MERGE creates its scratch table under an unqualified name first: without a current database / schema it fails
+        \* with 90105 / 90106 however well its target is qualified
+        IF "C03.merge_needs_current_schema" \in D /\ op.k = "ins" /\ "how" \in DOMAIN op /\ (~x.dset \/ ~x.sset)
+        THEN {RR(st, IF ~x.dset THEN "nodb" ELSE "nosc", D)}
+        ELSE IF op.q < 3 /\ ~x.dset THEN {RR(st, "nodb", D)}
         ELSE IF op.q < 2 /\ ~x.sset THEN {RR(st, "nosc", D)}
         ELSE LET t == Target(x, op)
                  t0 == <<t[1], t[2], "T">>
@@ -157,6 +161,9 @@ Ops(st) ==
   \cup [k : {"createt"}, c : Open, q : {3}, d : Db, s : {S0}, form : {"ine", "transient"}]
   \cup [k : {"dropt"}, c : Open, q : {1, 3}, d : {D0}, s : {S0}, form : {"ie"}]
   \cup [k : {"createsc"}, c : Open, q : {2}, d : {D0}, s : {S0}, form : {"ine"}]
+  \* the same write through MERGE ... WHEN NOT MATCHED THEN INSERT: the target name resolves like any other name
+  \cup [k : {"ins"}, c : Open, q : {1, 2}, d : {D0}, s : Sc, how : {"merge"}]
+  \cup [k : {"ins"}, c : Open, q : {3}, d : Db, s : Sc, how : {"merge"}]
 
 IsErr(r) == r.obs.res \in {"missing", "nodb", "nosc"}
 
@@ -179,4 +186,7 @@ StepOk(st, op, r) ==
         r.obs.hit = <<IF op.q = 3 THEN op.d ELSE st.ctx[op.c].rdb, IF op.q >= 2 THEN op.s ELSE st.ctx[op.c].rsc, "T">>)
   \* NoCtxError: 90105 / 90106 exactly when the needed context is missing
   /\ (r.obs.res = "nodb" => st.ctx[op.c].rdb = NONE) /\ (r.obs.res = "nosc" => st.ctx[op.c].rsc = NONE)
+  \* ... and only when it needs it: a fully qualified name needs no context, a schema-qualified one no current schema
+  /\ (op.k \in {"createt", "dropt", "probe", "ins"} /\ op.q = 3 => r.obs.res \notin {"nodb", "nosc"})
+  /\ (op.k \in {"createt", "dropt", "probe", "ins"} /\ op.q = 2 => r.obs.res # "nosc")
 =============================================================================
